@@ -16,7 +16,11 @@ TRUSTED_BASE = [
 ]
 ASSUMPTIONS = ["margin disabled for every pool, liquidity protection inactive, removal lock period 0 in the correspondence histories",
                "map iterations modelled in sorted order (order-independence is C09)"]
-UNPROVED = []
+UNPROVED = [
+    "endBlock_solvent_Statement: solvency across clp.EndBlocker (provider distribution LPPD, depth rewards in both modes) is stated but not yet proved; it is covered by the correspondence and the judged predicate only",
+    "margin open/close/interest messages are outside this model slice (custody enters as configured pool fields); C13 covers margin bookkeeping",
+    "exact-equality clause (slack changes only by the decommission remainder) is judged on implementation states but not proved",
+]
 MANIFEST = {
     "text": "Solvency invariant (module balance covers pools + custody + buckets for every token) proved in Lean for every history of AMM messages and hooks over an exact model of the clp handlers; model tied to the Go keeper by state-for-state differential execution; the invariant predicate itself judged on every implementation state.",
     "note": "Trusted: Lean kernel (+3 standard axioms), hand-written model tied only by the correspondence, harness/driver, x/bank semantics. Margin messages are out of this slice (custody enters as configured pool fields).",
